@@ -80,10 +80,12 @@ theorem drainQuietScan_shapeTr (s : Bool) (l : List Tr) : drainQuietScan s (shap
     cases t <;> first | exact ih _ | skip
     all_goals simp only [Tr.shape, if_true, drainQuietScan, ih]
 
-/-- from a quiescent configuration -/
-theorem win_quiet_step {P : Prog} {v v' : SV} {evs : List Tr} (hP : ScreenOnly P) (hb : Basic v)
+/-- from a quiescent configuration (the treatment of a raised exception is left to the caller) -/
+theorem win_quiet_step_core {P : Prog} {v v' : SV} {evs : List Tr} (hP : ScreenOnly P) (hb : Basic v)
     (hf : v.forceQuit = false) (hsc : ScreenCode v.code) (hq : Quiet v.code) (hs : SStepE P v evs v')
-    (hcl : v'.clean = true) : overCode v'.code = true ∨ Win v' := by
+    (hraise : ∀ {h : Instr} {rest : List Instr} {k : Kind}, v.code = h :: rest → h.canRaise k = true →
+      v' = raisedSV k { v with code := rest } → overCode v'.code = true ∨ Win v') :
+    overCode v'.code = true ∨ Win v' := by
   have hch := hb.chained
   cases hs with
   | stutter => exact .inr (.quiet hq)
@@ -94,7 +96,7 @@ theorem win_quiet_step {P : Prog} {v v' : SV} {evs : List Tr} (hP : ScreenOnly P
     have := quiet_head hq
     exact .inr (.quiet (quiet_batch (by rw [h1]; exact this.1) (by rw [h2]; exact this.2) (quiet_tail hq)))
   | halt hc _ => rw [hc] at hq; exact .inr (.quiet (quiet_tail hq))
-  | raise hc hr => exact .inl (raise_clean_over hch hc hr hcl)
+  | raise hc hr => exact hraise hc hr rfl
   | kill _ => exact .inl rfl
   | forceQuit hc => have := hsc _ (by rw [hc]; exact List.mem_cons_self ..); cases this
   | enqAct hc => rw [hc] at hq; exact .inr (.quiet (quiet_tail hq))
@@ -128,9 +130,19 @@ theorem win_quiet_step {P : Prog} {v v' : SV} {evs : List Tr} (hP : ScreenOnly P
     show Quiet (List.dropWhile _ _)
     rw [identSkip_chained hch]; exact quiet_tail hq
 
-theorem win_step {P : Prog} {v v' : SV} {evs : List Tr} (hP : ScreenOnly P) (hC : ClosedSilent P) (hb : Basic v)
-    (hi : WinInv v) (hs : SStepE P v evs v') (hcl : v'.clean = true) (hdq : drainQuietScan false v'.ev = true) :
+/-- the step lemma of the window invariant, with the treatment of a raised exception left to the caller
+(`hraise`) -/
+theorem win_step_core {P : Prog} {v v' : SV} {evs : List Tr} (hP : ScreenOnly P) (hC : ClosedSilent P) (hb : Basic v)
+    (hi : WinInv v) (hs : SStepE P v evs v') (hdq : drainQuietScan false v'.ev = true)
+    (hraise : ∀ {h : Instr} {rest : List Instr} {k : Kind}, v.code = h :: rest → h.canRaise k = true →
+      v' = raisedSV k { v with code := rest } → WinInv v') :
     WinInv v' := by
+  have hraise' : ∀ {h : Instr} {rest : List Instr} {k : Kind}, v.code = h :: rest → h.canRaise k = true →
+      v' = raisedSV k { v with code := rest } → overCode v'.code = true ∨ Win v' := by
+    intro h rest k hc hr hv
+    rcases hraise hc hr hv with ho | ⟨_, _, hw⟩
+    · exact .inl ho
+    · exact .inr hw
   rcases hi with ho | ⟨hf, hsc, hw⟩
   · exact .inl (over_step ho hs)
   -- force-quit flag and screen-level code are kept by `match_step`-like reasoning: reuse `MatchInv` is not
@@ -147,7 +159,10 @@ theorem win_step {P : Prog} {v v' : SV} {evs : List Tr} (hP : ScreenOnly P) (hC 
         exact .inr ⟨hf, this.2.2.append hsc.tail⟩
       · exact absurd hf hfq
     | halt hc _ => rw [hc] at hsc; exact .inr ⟨hf, hsc.tail⟩
-    | raise hc hr => exact .inl (raise_clean_over hch hc hr hcl)
+    | raise hc hr =>
+      rcases hraise hc hr rfl with ho | ⟨h1, h2, _⟩
+      · exact .inl ho
+      · exact .inr ⟨h1, h2⟩
     | kill _ => exact .inl rfl
     | forceQuit hc => have := hsc _ (by rw [hc]; exact List.mem_cons_self ..); cases this
     | enqAct hc => rw [hc] at hsc; exact .inr ⟨hf, hsc.tail⟩
@@ -206,7 +221,7 @@ theorem win_step {P : Prog} {v v' : SV} {evs : List Tr} (hP : ScreenOnly P) (hC 
     · exact .inr ⟨hf', hsc', h⟩
   have hch := hb.chained
   cases hw with
-  | quiet hq => exact win_quiet_step hP hb hf hsc hq hs hcl
+  | quiet hq => exact win_quiet_step_core hP hb hf hsc hq hs hraise'
   | w1 hc hq =>
     cases hs with
     | stutter => exact .inr (.w1 hc hq)
@@ -263,7 +278,7 @@ theorem win_step {P : Prog} {v v' : SV} {evs : List Tr} (hP : ScreenOnly P) (hC 
       | passive hp => cases hp
       | close2Modal _ _ _ => exact .inr (.w5 rfl (Quiet.cons_free rfl hq))
       | close2Plain _ _ _ => exact .inr (.quiet (Quiet.cons_free rfl hq))
-    | raise hc' hr => exact .inl (raise_clean_over hch hc' hr hcl)
+    | raise hc' hr => exact hraise' hc' hr rfl
     | halt hc' hh => rw [hc] at hc'; cases hc'; cases hh
     | kill hc' | forceQuit hc' | enqAct hc' | schedule hc' | pushScr hc' | replace hc' _ | apprun hc' | restore hc' _
     | «open» hc' _ | pop hc' _ _ | popExit hc' _ _ | pushModal hc' | closeScreen hc' _ | discard hc' _
@@ -312,11 +327,19 @@ theorem win_step {P : Prog} {v v' : SV} {evs : List Tr} (hP : ScreenOnly P) (hC 
       | passive hp => cases hp
     | pop hc' _ _ => rw [hc] at hc'; cases hc'; exact .inr (.quiet hq)
     | popExit hc' _ _ => rw [hc'] at hch; exact .inl (unwind_exit_chained hch.2)
-    | raise hc' hr => exact .inl (raise_clean_over hch hc' hr hcl)
+    | raise hc' hr => exact hraise' hc' hr rfl
     | halt hc' hh => rw [hc] at hc'; cases hc'; cases hh
     | kill hc' | forceQuit hc' | enqAct hc' | schedule hc' | pushScr hc' | replace hc' _ | apprun hc' | restore hc' _
     | «open» hc' _ | pushModal hc' | closeScreen hc' _ | discard hc' _ | identSkip hc' _ _ =>
       rw [hc] at hc'; cases hc'
+
+/-- … when no exception escaped: a raise ends the run -/
+theorem win_step {P : Prog} {v v' : SV} {evs : List Tr} (hP : ScreenOnly P) (hC : ClosedSilent P) (hb : Basic v)
+    (hi : WinInv v) (hs : SStepE P v evs v') (hcl : v'.clean = true) (hdq : drainQuietScan false v'.ev = true) :
+    WinInv v' :=
+  win_step_core hP hC hb hi hs hdq fun hc hr hv => by
+    subst hv
+    exact .inl (raise_clean_over hb.chained hc hr hcl)
 
 end Shape
 
